@@ -1,5 +1,5 @@
 CONSTANTS Clients = {}  Attackers = {}  Realms = {}  Services = {}  Wanted = {}  Hop <- NoHop  Nonces = {}  KeyIds = {}  MaxHops = 6  MaxMsgs = 0
-          CheckNonce = TRUE  BoundReferrals = TRUE
+          CheckNonce = TRUE  BoundReferrals = TRUE  AuthRealmOwn = TRUE
 SPECIFICATION TSpec
 CONSTRAINT Mark
 INVARIANTS DeliveredIsRight
